@@ -25,8 +25,7 @@ func runC08(c *Ctx) {
 
 	cacheT := P.Named("cache", "Cache")
 	storeIfc := P.Named("cache", "Store")
-	sizeF, limitF, countF := P.Field("cache", "Cache", "size"), P.Field("cache", "Cache", "limit"), P.Field("cache", "Cache", "count")
-	sizeOfF, onEvictF := P.Field("cache", "Cache", "sizeOf"), P.Field("cache", "Cache", "onEvict")
+	sizeF, limitF, countF, sizeOfF, onEvictF := resolveCacheFields(P)
 	if cacheT == nil || storeIfc == nil || sizeF == nil || limitF == nil || countF == nil || sizeOfF == nil || onEvictF == nil {
 		c.undecided("ANCHOR", "cache.Cache fields", 0, "anchor not found")
 		return
@@ -389,7 +388,12 @@ func runC08(c *Ctx) {
 		})
 		c.judge(len(used) == 1 && used[0] == "Check", "R-CHECK-PURE", "cache.(*Cache).Has:store calls", has.Pos(), "only Store.Check", fmt.Sprintf("Has calls %v on the store (only Check does not count as a use)", used))
 	}
-	if chk := P.Func("cache", "lruStore", "Check"); chk != nil {
+	roles := resolveLRU(P)
+	if roles == nil {
+		c.undecided("ANCHOR", "cache LRU store (type allocated by LRU, its map index, heap, clock and stamp)", 0, "anchor not found")
+		return
+	}
+	if chk := roles.check; chk != nil {
 		c.sawFn(fnName(chk))
 		e := newEff(P).of(chk)
 		var effs []string
@@ -417,12 +421,10 @@ func runC08(c *Ctx) {
 	// ---- R-USE-TICK: a successful Access / a Store always counts as a use
 	c.rule("R-USE-TICK", 2, "every successful return of lruStore.Access and every return of lruStore.Store is preceded on all paths by a clock tick, a lastAccess stamp and a heap insertion")
 	{
-		clockF0 := P.Field("cache", "lruStore", "clock")
-		laF0 := P.Field("cache", "prioKey", "lastAccess")
-		accessF0 := P.Field("cache", "lruStore", "access")
+		clockF0, laF0, accessF0 := roles.clockF, roles.stampF, roles.accessF
 		qAdd := P.Func("heapq", "Queue", "Add")
 		for _, mn := range []string{"Access", "Store"} {
-			fn := P.Func("cache", "lruStore", mn)
+			fn := map[string]*ssa.Function{"Access": roles.access, "Store": roles.store}[mn]
 			if fn == nil || clockF0 == nil || laF0 == nil || accessF0 == nil || qAdd == nil {
 				c.undecided("ANCHOR", "cache.(*lruStore)."+mn, 0, "not found")
 				continue
@@ -473,8 +475,7 @@ func runC08(c *Ctx) {
 	}
 
 	// ---- R-CLOCK
-	clockF := P.Field("cache", "lruStore", "clock")
-	laF := P.Field("cache", "prioKey", "lastAccess")
+	clockF, laF := roles.clockF, roles.stampF
 	if clockF == nil || laF == nil {
 		c.undecided("ANCHOR", "cache.lruStore.clock / prioKey.lastAccess", 0, "not found")
 		return
